@@ -38,6 +38,19 @@ func (x *Exec) addObl(kind, tag, clause string, st *State, goal string, props []
 	x.obls = append(x.obls, o)
 }
 
+// addInapplicable records a contract clause that cannot be stated on the current source (it names a local the code no
+// longer has): the clause is undischarged, the rest of the function is still verified without it.
+func (x *Exec) addInapplicable(kind, tag, clause, why string, props []string) {
+	name := fmt.Sprintf("%s.%s.%s.%s", x.prop, x.topShort(), kind, tag)
+	for _, o := range x.obls {
+		if o.Name == name && o.Result == "inapplicable" {
+			return
+		}
+	}
+	x.obls = append(x.obls, &Obligation{Name: name, Func: x.topKey(), Kind: kind, Clause: clause, Goal: "false", Props: props,
+		Result: "inapplicable", Solver: "none", Model: "clause cannot be evaluated on the current source: " + why})
+}
+
 func (x *Exec) topShort() string {
 	if x.topC != nil {
 		return x.topC.Func
